@@ -511,6 +511,8 @@ def compare(sc, impl):
 # ---------------------------------------------------------------- one property run
 def run_property(ctx, prop, profiles, corpus_props, nscripts, configs, trivial_rule):
     rng = ctx.rng
+    if os.environ.get("VERIF_FEB_CONFIGS"):          # experiments only: "2x2,1x1"
+        configs = [tuple(int(x) for x in c.split("x")) for c in os.environ["VERIF_FEB_CONFIGS"].split(",")]
     passes, runs, table = srcfacts(core.REPO)
     pr = ctx.coq_properties("Properties/Properties_%s.v" % prop)
     exe = ctx.link("c01_feb", ["c01_feb.c"], exclude=["feb.c"])
